@@ -317,7 +317,7 @@ func (g *Gen) jobj(depth int) *Sexp {
 }
 
 func runC16(r *Runner, g *Gen, tier string) string {
-	n := scale(tier, 3000, 200000)
+	n := scale(tier, 3000, 600000)
 	for i := 0; i < n; i++ {
 		d := 1 + g.r.Intn(5)
 		switch g.r.Intn(5) {
